@@ -82,7 +82,9 @@ def grid_oracles(ctx, sc, tag):
                 prev_t = t
                 continue
             d = 1.0 if target >= start else -1.0
-            mono = all((y - x) * d > 0 for x, y in zip(new, new[1:]))
+            # order and distance in the precision of the run (two longdouble times may round to the same float)
+            nat = rec.get("t_native", t)[len(prev_t) - 1:]
+            mono = all((y - x) * d > 0 for x, y in zip(nat, nat[1:]))
             ctx.oracle("strictly-monotone", mono, inp, what="recorded times not strictly monotone toward the target: %s" % (new[:8],))
             ulp = 8 * float(max(np.spacing(sc.dtype(abs(target))), np.spacing(sc.dtype(abs(start)))))
             ctx.oracle("no-overshoot", all((target - x) * d >= -ulp for x in new), inp, what="a recorded time overshoots the target %r: %s" % (target, new[-3:]))
